@@ -1354,6 +1354,7 @@ fn c18_cell(run: &Run, cfg: &Cfg, alphabet: &[Op], depth: usize, ns: &[usize], s
           // live data stays, detached: keep the records, forget the handle objects
           let lives: Vec<(Meta4, u8)> = r.all_live().map(|l| (l.m, l.pat)).collect();
           let dead = r.dead.clone();
+          let min_in_force = r.min_in_force;
           let pre = r.a.snap(64);
           let img: Vec<u8> = r.a.allocated_memory().to_vec();
           let (mut arena, path) = r.into_arena();
@@ -1387,6 +1388,7 @@ fn c18_cell(run: &Run, cfg: &Cfg, alphabet: &[Op], depth: usize, ns: &[usize], s
             c2.cap = want_cap as u32;
             let mut r2 = Runner::<U>::from_arena(&c2, arena, path);
             r2.dead = dead;
+            r2.min_in_force = min_in_force;
             r2.first_alloc_done = true;
             for (m, pat) in &lives {
               r2.pinned.push(Live { h: None, m: *m, pat: *pat, needs_drop: false, owned: false, refs_delta: 0 });
